@@ -252,7 +252,7 @@ package gorm
 //@   ensures same-handle: result == db
 
 //@ # ---------- C14: lock discipline of the prepared-statement cache (premises of the monitor argument) ----------
-//@ ghost held inserted closes prepares spawned prepErr evicted ranged waited usable
+//@ ghost held inserted closes prepares spawned prepErr evicted ranged waited usable protectedMap
 //@ event call (*RWMutex).RLock
 //@   in gorm.(*PreparedStmtDB).* gorm.(*PreparedStmtTX).*
 //@   requires lock-taken-while-free: held == 0 [C14]
@@ -328,12 +328,23 @@ package gorm
 //@   requires held == 0
 //@   ensures mutex-free-on-return: held == 0
 
-//@ func (*PreparedStmtDB).Reset (*PreparedStmtDB).Close
+//@ func (*PreparedStmtDB).Close
 //@   tags C14
 //@   requires held == 0
 //@   loop 1 invariant every-entry-gets-a-closer: spawned - old(spawned) == ranged - old(ranged) && held == 2
 //@   ensures mutex-free-on-return: held == 0
 //@   ensures every-entry-gets-a-closer: spawned - old(spawned) == ranged - old(ranged)
+
+//@ func (*PreparedStmtDB).Reset
+//@   tags C14
+//@   requires held == 0
+//@   loop 1 invariant every-entry-gets-a-closer: spawned - old(spawned) == ranged - old(ranged) && held == 2
+//@   loop 1 invariant closed-entries-leave-the-shared-map: forallkey(k, sdb.Stmts, visited(k) ==> !has(sdb.Stmts, k))
+//@   loop 1 exit-do protectedMap = ref(sdb.Stmts)
+//@   ensures mutex-free-on-return: held == 0
+//@   ensures every-entry-gets-a-closer: spawned - old(spawned) == ranged - old(ranged)
+//@   ensures shared-map-is-not-replaced: ref(sdb.Stmts) == protectedMap
+//@   ensures shared-map-is-emptied: forallkey(k, sdb.Stmts, !has(sdb.Stmts, k))
 
 //@ site closer-waits-for-preparation
 //@   match call database/sql.(*Stmt).Close
